@@ -1339,12 +1339,18 @@ class AdbDevice(object):
         self._io_manager.send(msg, adb_info)
 
         # Expect an 'OKAY' in response; keep the data of any 'WRTE' (e.g., a FileSync 'FAIL') that the device sends before it
+        start = time.time()
+
         while True:
             cmd, data = self._read_until([constants.OKAY, constants.WRTE], adb_info)
             if cmd == constants.OKAY:
                 break
 
             filesync_info.recv_buffer += data
+
+            # A device that keeps writing but never acknowledges must not keep us here forever
+            if time.time() - start > adb_info.read_timeout_s:
+                raise exceptions.AdbTimeoutError("Never got an 'OKAY' for the last 'WRTE' (transport_timeout_s = {}, read_timeout_s = {})".format(adb_info.transport_timeout_s, adb_info.read_timeout_s))
 
         # Reset the send index
         filesync_info.send_idx = 0
